@@ -40,6 +40,7 @@ type kvAPI interface {
 	MapSetLen(k, v int) int
 	Clear()
 	Final(nKeys int) (ks, vs []int)
+	MapCall(f func())
 }
 
 type kvOf[K comparable, V any] struct {
@@ -136,6 +137,9 @@ func (a *kvOf[K, V]) MapSetLen(k, v int) (n int) {
 	return
 }
 func (a *kvOf[K, V]) Clear() { a.m.Clear() }
+
+// MapCall runs f as the callback of Map, i.e. under this map's write lock.
+func (a *kvOf[K, V]) MapCall(f func()) { a.m.Map(func(mapz.KV[K, V]) { f() }) }
 func (a *kvOf[K, V]) Final(nKeys int) (ks, vs []int) {
 	a.m.Map(func(kv mapz.KV[K, V]) {
 		for k := 0; k < nKeys; k++ {
@@ -281,10 +285,11 @@ type inst struct {
 	// before each operation it stores a fresh value under a key only this thread writes, after
 	// it the value must still be there.  Two maps share nothing (package-level caches, pools or
 	// locks would couple them).
-	tw    kvAPI
-	elem  int
-	twN   [16]int
-	twErr [16]string
+	tw     kvAPI
+	elem   int
+	others []kvAPI
+	twN    [16]int
+	twErr  [16]string
 }
 
 func (x *inst) Do(t int, op sim.Op) sim.Rec {
@@ -363,6 +368,18 @@ func (x *inst) Do(t int, op sim.Op) sim.Rec {
 	case "Clear":
 		x.m.Clear()
 		r.OK = true
+	case "MapOthers":
+		// a callback that runs under this map's lock uses OTHER maps (many of them): maps share
+		// nothing, so this can neither block nor disturb anybody
+		x.m.MapCall(func() {
+			for i, o := range x.others {
+				o.Set(400+t, i)
+				if v, ok := o.Get(400 + t); !ok || v != i {
+					r.V = -1
+				}
+			}
+		})
+		r.OK = r.V == 0
 	case "Fresh":
 		// a map created while the others are in use (capacity hint 0 or small): private
 		f := newKV(x.elem, []int{0, 0, 1, 4}[(t+op.V)%4])
@@ -401,7 +418,7 @@ func clampOp(op sim.Op) sim.Op {
 }
 
 var opNames = []string{"Get", "Set", "SetNx", "SetX", "Delete", "Has", "Contains", "Len", "Keys", "Values", "Range", "All",
-	"GetWithMap", "GetWithLock", "MapMove", "MapSetLen", "Clear", "Fresh"}
+	"GetWithMap", "GetWithLock", "MapMove", "MapSetLen", "Clear", "Fresh", "MapOthers"}
 
 func gen(r *sim.Rng, tier string) *sim.Case {
 	maxT, maxOps := 4, 4
@@ -439,9 +456,13 @@ func gen(r *sim.Rng, tier string) *sim.Case {
 			w[i] = r.Range(1, 4)
 		}
 	}
-	w[len(w)-1] = 0
+	w[len(w)-1], w[len(w)-2] = 0, 0
 	if r.Pct(12) {
-		w[len(w)-1] = 1 // Fresh: a new map is created (and used) while the others are in use
+		w[len(w)-2] = 1 // Fresh: a new map is created (and used) while the others are in use
+	}
+	if r.Pct(4) {
+		c.Params["others"] = 1 // MapOthers: callbacks under the lock use 96 other maps
+		w[len(w)-1] = 2
 	}
 	w[1+r.N(3)] += 2 // always some writer
 	if c.Params["elem"] == 4 {
@@ -521,6 +542,11 @@ func setKeys(c *sim.Case) {
 func build(c *sim.Case) enga.Instance {
 	setKeys(c)
 	x := &inst{m: newKV(c.P("elem"), r2(c.P("init_mask"))), init: map[int]int{}, elem: c.P("elem")}
+	if c.P("others") == 1 && c.P("elem") != 4 {
+		for i := 0; i < 96; i++ {
+			x.others = append(x.others, newKV(c.P("elem"), 0))
+		}
+	}
 	if c.P("twin") == 1 && c.P("elem") != 4 {
 		x.tw = newKV(c.P("elem"), 0)
 	}
@@ -741,6 +767,13 @@ func check(run *enga.Run) *sim.Violation {
 			r := recs[t][i]
 			if !r.Done {
 				continue
+			}
+			if op.Op == "MapOthers" {
+				run.Out.Probes["callback_under_lock_uses_other_maps"]++
+				if !r.OK {
+					return &sim.Violation{Class: "fresh_instance_disturbed", Site: "mapz.(*SafeKV).Map", Detail: "a Map callback stored values in other maps and read something else back"}
+				}
+				continue // touches other maps only
 			}
 			if op.Op == "Fresh" {
 				run.Out.Probes["fresh_instance_created_during_run"]++
